@@ -23,8 +23,8 @@ def cases_a(tier):
     cs.append(H(0, 1, cfg=1))
     cs.append(H(0, 2, vl=10))            # two elements of 16 bytes fill the 32 byte queue exactly
     cs.append(H(0, 3))
-    cs.append(H(0, 3, cfg=1))
     if tier == 'thorough':
+        cs.append(H(0, 3, cfg=1))
         cs.append(H(0, 2, vl=0))
         cs.append(H(0, 2, cfg=1, vl=12, mtu=65))
         cs.append(H(0, 3, vl=0, wl=0))
